@@ -21,8 +21,8 @@ Next == i < Len(Rec) /\ i' = i + 1
 Spec == Init /\ [][Next]_i
 
 Aspects(e) ==
-  IF ~NoPanic(e.r) THEN {"panic"}
-  ELSE (IF ValueInRange(e.op, e.r) THEN {} ELSE {"range"}) \cup
+  IF ~NoPanicX(e.op, e.r) THEN {"panic"}
+  ELSE (IF ValueInRangeX(e.op, e.a, e.r) THEN {} ELSE {"range"}) \cup
        (IF OpOK(e.op, e.a, e.r) THEN {} ELSE {"result"})
 
 Judge == LET e == Rec[i]  bad == Aspects(e) IN
